@@ -187,13 +187,13 @@ def write_evidence(pid, tier, seed, mod, results, metas, wall, violations=(), kn
                 fns[c] = {'source': m['source'], 'line': i['line'], 'contract': i['contract'],
                           'loops': i['loops'], 'loop_contracts': len(i['loops_with_contract']), 'body_lowered': i['has_body']}
     under_contract = sorted({r.group.enforce for r in results if r.group.enforce} |
-                            {f for r in results for f in r.group.replace})
+                            {f for r in results for f in r.group.replace} | {f for r in results for f in r.group.stub})
     groups_ev = []
     for r in results:
         g = r.group
         groups_ev.append({'name': g.name, 'clause': g.clause, 'kind': g.kind, 'bound': g.bound, 'status': r.status,
                           'negative_control': g.expect == 'fail', 'backend': r.backend, 'solver_s': round(r.solver_s, 2),
-                          'obligations': len(r.props), 'enforced_contract': g.enforce, 'calls_replaced_by_contract': g.replace,
+                          'obligations': len(r.props), 'enforced_contract': g.enforce, 'calls_replaced_by_contract': g.replace, 'calls_replaced_by_contract_stub': g.stub,
                           'loop_contracts_applied': g.loop_contracts, 'unwind': g.unwind,
                           'vacuity_canary_failed_as_required': r.canary_ok})
     samples = []
